@@ -86,7 +86,7 @@ func (in *c09inst) Key() string {
 	var sb strings.Builder
 	sb.WriteString(lib.Canon(in.facts) + lib.Canon(in.rules) + lib.Canon(in.parents))
 	for _, l := range c09Locs {
-		sb.WriteString("|" + in.world.Snapshot(l))
+		sb.WriteString("|" + in.world.KeySnapshot(l))
 	}
 	return sb.String()
 }
